@@ -9,7 +9,10 @@ Open Scope Z_scope.
 
 (* ---------- observed forms ---------- *)
 Inductive wobs := WAdvO (p : pbts) | WCurO (s n : Z).
-Inductive robs := RAdvO (s : N) (p : pbts) (fired : list (Z * N)) (wm_after : Z) | RSetO (k : N) (t : Z).
+Inductive robs :=
+| RAdvO (s : N) (p : pbts) (fired : list (Z * N)) (wm_after : Z)
+| RSetO (k : N) (t : Z)
+| RAdvStopO (s : N) (p : pbts) (k : nat) (fired : list (Z * N)) (wm_after : Z).   (* the consumer stops after k timers *)
 Inductive oev := EK (id : N) | ET (k : N) (ts : Z).
 Definition ocall := ((Z * Z) * list oev)%type.
 
@@ -153,7 +156,7 @@ Definition check_run (nops : N) (routed : list (N * N * pbts)) (streams : list (
 
 (* ---------- (b) TimerRegistry ---------- *)
 Definition rops_of (ops : list robs) : list rop :=
-  map (fun o => match o with RAdvO s p _ _ => RAdv s p | RSetO k t => RSet k t end) ops.
+  map (fun o => match o with RAdvO s p _ _ => RAdv s p | RSetO k t => RSet k t | RAdvStopO s p k _ _ => RAdvStop s p k end) ops.
 
 (* order among equal timestamps is not fixed by the code: sort every run of equal timestamps by key *)
 Fixpoint tie_insert (x : Z * N) (l : list (Z * N)) : list (Z * N) :=
@@ -167,6 +170,7 @@ Fixpoint check_reg_ops (ids : list N) (i : nat) (all : list rop) (ops : list rob
   match ops, model with
   | [], _ => []
   | RSetO _ _ :: r, _ :: mr => check_reg_ops ids (S i) all r mr
+  | RAdvStopO s p _ fired wm_after :: r, (mf, mwm) :: mr
   | RAdvO s p fired wm_after :: r, (mf, mwm) :: mr =>
       let c := spec_composite ids (rop_msgs (firstn (S i) all)) in
       flag (list_eqb zn_eqb (norm_ties fired) (norm_ties mf)) 3 ++
@@ -185,14 +189,18 @@ Definition check_reg (ids : list N) (wm0 : Z) (ops : list robs) : list N :=
 
 (* ---------- (c) Operator with a scripted recording handler ---------- *)
 (* the harness handler: a keyed event sets the timers scripted in its payload; an expired timer of a key
-   with id >= 4 whose second is 0..1 mod 10 re-arms at +2 s and tries -1 s (at or before the watermark) *)
+   with id >= 4 whose second is 0..1 mod 10 re-arms at +2 s and tries -1 s (at or before the watermark); a batch
+   holding an expired timer of key 6 at an even second makes the handler fail (after the call was recorded) *)
+Definition poison (e : hevent) : bool :=
+  match e with HT key ts => (key =? 6)%N && (fst (pb_new ts) mod 2 =? 0) | _ => false end.
 Definition h_script : handler := fun _ evs =>
-  map (fun e => match e with
+  if existsb poison evs then None   (* ProcessEventBatch returns an error: expired timer of key 6 at an even second *)
+  else Some (map (fun e => match e with
                 | HK _ key timers => (key, timers)
                 | HT key ts =>
                     let '(s, n) := pb_new ts in
                     if (4 <=? key)%N && (s mod 10 <? 2) then (key, [Some (s + 2, n); Some (s - 1, n)]) else (key, [])
-                end) evs.
+                end) evs).
 
 Definition oev_of (e : hevent) : oev := match e with HK id _ _ => EK id | HT k t => ET k t end.
 
